@@ -2,7 +2,8 @@
    `wf` = both limbs below 2^64, `agrees o s` = the model outcome o is a well-formed value equal to the
    reference value s, or reverts (RVRT or VM panic) when the reference is None. *)
 From Coq Require Import NArith List.
-From SwayV Require Import Vm.Alu C27.Model C27.Spec C27.Proofs.
+From SwayV Require Import Vm.Alu C27.Model C27.Spec C27.CollSpec C27.Proofs.
+Import ListNotations.
 Local Open Scope N_scope.
 
 Theorem C27_u128_add_correct : forall a b, wf a -> wf b ->
@@ -59,7 +60,27 @@ Proof.
 Qed.
 Print Assumptions C27_u128_compare_correct.
 
+(* Collections: running any operation sequence (push/pop/get/set/insert/remove/swap/clear/len/capacity/
+   is_empty/last) on the buffer model from the empty Vec gives exactly the observations, the revert
+   (FAILED_ASSERT_SIGNAL at the documented out-of-bounds set/insert/remove/swap, and no other revert or VM
+   panic) and the final contents+capacity of the list reference.  2^62 bounds the number of operations so
+   that the code's checked u64 arithmetic on len/cap cannot overflow. *)
+Theorem C27_vec_refines_list : forall ops, N.of_nat (length ops) < 2 ^ 62 ->
+  vrun ops vnew = lrun ops lnew.
+Proof. exact vec_refines_list. Qed.
+Print Assumptions C27_vec_refines_list.
+
+Theorem C27_vec_invariant : forall ops, N.of_nat (length ops) < 2 ^ 62 ->
+  Forall (fun v => len v <= cap v /\ length (buf v) = N.to_nat (cap v)) (vstates ops vnew).
+Proof. exact vec_invariant. Qed.
+Print Assumptions C27_vec_invariant.
+
 (* Non-vacuity *)
+Example C27_vec_example :
+  vrun [VPush 5; VPush 6; VPush 7; VInsert 1 9; VCap; VRemove 0; VSwap 0 2; VPop; VSet 5 1] vnew =
+  ([[]; []; []; []; [4]; [5]; []; [1; 9]], Rev FAILED_ASSERT_SIGNAL).
+Proof. vm_compute. reflexivity. Qed.
+
 Example C27_examples :
   u128_add default_flags (1, 18446744073709551615) (0, 1) = Ret (2, 0) /\
   u128_add default_flags (18446744073709551615, 18446744073709551615) (0, 1) = Rev FAILED_ASSERT_SIGNAL /\
